@@ -321,12 +321,11 @@ func (sh *SessionHandler) rpcRenewAndClearContract(s *session, log *zap.Logger) 
 	// calculate the "base" storage cost to the renter and risked collateral for
 	// the host for the data already in the contract. If the contract height did
 	// not increase, base costs are zero since the storage is already paid for.
-	baseRevenue := settings.ContractPrice
-	var baseCollateral types.Currency
-	if renewedContract.WindowEnd > existingRevision.WindowEnd {
-		extension := uint64(renewedContract.WindowEnd - existingRevision.WindowEnd)
-		baseRevenue = baseRevenue.Add(settings.StoragePrice.Mul64(renewedContract.Filesize).Mul64(extension))
-		baseCollateral = settings.Collateral.Mul64(renewedContract.Filesize).Mul64(extension)
+	baseRevenue, baseCollateral, err := renewalBaseCosts(existingRevision, renewedContract, settings)
+	if err != nil {
+		err = fmt.Errorf("invalid contract renewal: %w", err)
+		s.t.WriteResponseErr(err)
+		return contracts.Usage{}, err
 	}
 
 	// validate the renewal
